@@ -631,6 +631,11 @@ class MailboxWorld:
     def _do_Dup(self, act):
         self.server.dup_message(self.conn(act["k"]), act["m"])
 
+    def _do_WithholdS2C(self, act):
+        """The server does not deliver a frame it has queued for the client (a selective replay after a reconnect)."""
+        q = self.conn(act["k"]).s2c
+        del q[act["i"]]
+
     def _do_SwapS2C(self, act):
         q = self.conn(act["k"]).s2c
         i = act["i"]
